@@ -2,7 +2,8 @@
 import ast
 
 from ..model import AnalysisError
-from ..lib import FV, Alias, alias_term, decode_new, decode_call, phi_members, is_sym, is_const, is_str, tuple_consts
+from ..lib import (FV, Alias, alias_term, decode_new, decode_call, phi_members, is_sym, is_const, is_str, tuple_consts,
+                   strip_stores)
 from ..cfg import walk_stmts
 from . import common as cm
 from .common import FIELD
@@ -171,8 +172,8 @@ def d3_mapped(chk, repo):
     data_rot = None
     for r, a in cm.returned_news(v):
         val, vld = a.get("value"), a.get("valid")
-        cv = decode_call(v.ctx, val) if val is not None else None
-        cd = decode_call(v.ctx, vld) if vld is not None else None
+        cv = _single_base_call(v, val)
+        cd = _single_base_call(v, vld)
         ok = bool(cv and cd and cv[0] == cd[0] == "np.rot90" and set(cv[2]) == set(cd[2]) == {"k", "axes"}
                   and all(v.eq(cv[2][k], cd[2][k]) for k in cv[2])
                   and v.eq(cv[1][0], v.spec("self.array")) and v.eq(cd[1][0], v.spec("self.valid")))
@@ -188,7 +189,7 @@ def d3_mapped(chk, repo):
         s = st_valid[0]
         tv = v.term(s[2], at=s[0])
         td = v.term(st_value[0].args[0], at=v.owner(st_value[0]))
-        cv, cd = decode_call(v.ctx, td), decode_call(v.ctx, tv)
+        cv, cd = _single_base_call(v, td), _single_base_call(v, tv)
         ok = bool(cv and cd and cv[0] == cd[0] == "np.rot90" and set(cv[2]) == set(cd[2])
                   and all(v.eq(cv[2][k], cd[2][k]) for k in cv[2]) and v.eq(cd[1][0], v.spec("self.valid")))
         det = f"in place: data={v.show(td)} valid={v.show(tv)}"
@@ -269,6 +270,10 @@ def _dtype_of(v, t, depth=0):
             return pos[1]
         return "unknown"
     h = ctx.head_of(t)
+    if h and h[0] in ("store", "mut", "phi"):
+        bases = strip_stores(ctx, t)
+        ds = [_dtype_of(v, b, depth + 1) for b in bases]
+        return ds[0] if ds and all(_same_dt(v, ds[0], d) for d in ds) else "mixed"
     if h and h[0] == "sub":
         return _dtype_of(v, ctx.args_of(t)[0], depth + 1)
     if h and h[0] == "sym" and h[1].startswith("param:"):
@@ -400,6 +405,15 @@ def d5_setter(chk, repo):
              "a Field is not among the validity specifications C08 lists, so this is noted, not reported")
 
 
+def _single_base_call(v, t):
+    if t is None:
+        return None
+    bases = strip_stores(v.ctx, t)
+    if len(bases) != 1:
+        return None
+    return decode_call(v.ctx, bases[0])
+
+
 def _if_of(v, testexpr):
     for st in v.stmts():
         if isinstance(st, (ast.If, ast.While)) and st.test is testexpr:
@@ -408,6 +422,24 @@ def _if_of(v, testexpr):
 
 
 # ------------------------------------------------------------------ D6
+def _is_fresh_container(v, t):
+    """the value is a python container built in this function (list/dict literal, comprehension, list(...)):
+    writing an element or extending it does not touch the objects it holds"""
+    bases = strip_stores(v.ctx, t)
+    if not bases:
+        return False
+    for b in bases:
+        h = v.ctx.head_of(b)
+        if not h:
+            return False
+        if h[0] in ("list", "dict", "set", "seqcomp", "dictcomp", "setcomp", "concat", "repeat"):
+            continue
+        if h[0] == "call" and h[1] in ("list", "dict", "set", "sorted", ".copy_dict"):
+            continue
+        return False
+    return True
+
+
 def write_effects(v, al):
     """[(stmt, description, roots)] for every write in function view v (alias mode)"""
     out = []
@@ -425,7 +457,10 @@ def write_effects(v, al):
                 if isinstance(st, ast.AugAssign):
                     # in-place arithmetic on whatever the name is bound to
                     tt = alias_term(v, ast.Name(id=t.id, ctx=ast.Load()), at=st)
-                    out.append((st, f"{t.id} op= ...", al.roots(v.ctx, tt)))
+                    if _is_fresh_container(v, tt):
+                        out.append((st, f"{t.id} op= ... (local container)", set()))
+                    else:
+                        out.append((st, f"{t.id} op= ...", al.roots(v.ctx, tt)))
                 continue
             if isinstance(t, ast.Attribute):
                 base = alias_term(v, t.value, at=st)
@@ -433,7 +468,10 @@ def write_effects(v, al):
                 out.append((st, f"store .{t.attr}", {f"{r}.{t.attr}" for r in roots} if roots else set()))
             elif isinstance(t, ast.Subscript):
                 base = alias_term(v, t.value, at=st)
-                out.append((st, "subscript store", al.roots(v.ctx, base)))
+                if _is_fresh_container(v, base):
+                    out.append((st, "subscript store (local container)", set()))
+                else:
+                    out.append((st, "subscript store", al.roots(v.ctx, base)))
     for call, st in v.calls():
         for k in call.keywords:
             if k.arg == "out":
